@@ -46,13 +46,34 @@ func (c ImpossibleCheck) Check(_ context.Context, entry discovery.Entry, _ []dis
 		return problems
 	}
 
+	var all []utils.Source
 	for _, src := range utils.LabelsSource(expr.Value.Value, expr.Query.Expr) {
 		src.WalkSources(func(s utils.Source) {
-			problems = append(problems, c.checkSource(expr, s)...)
+			all = append(all, s)
 		})
+	}
+	for _, s := range all {
+		if s.IsDead && c.isAliveElsewhere(s, all) {
+			continue
+		}
+		problems = append(problems, c.checkSource(expr, s)...)
 	}
 
 	return problems
+}
+
+// isAliveElsewhere returns true if the same part of the query is also used
+// by another source that is not dead.
+// This happens when one side of a binary operation has multiple sources,
+// as in `(foo{job="x"} or vector(1)) * vector(1)`, and the other side
+// can be matched with only some of them.
+func (c ImpossibleCheck) isAliveElsewhere(s utils.Source, all []utils.Source) bool {
+	for _, o := range all {
+		if !o.IsDead && o.Type == s.Type && o.Position == s.Position {
+			return true
+		}
+	}
+	return false
 }
 
 func (c ImpossibleCheck) checkSource(expr parser.PromQLExpr, s utils.Source) (problems []Problem) {
